@@ -137,7 +137,45 @@ def tlc_mc(module, cfg, name, timeout=1200, workers=None, env=None, edges_out=No
     return {"states": distinct, "transitions": states, "depth": depth, "edges": n_edges, "wall_s": round(dt, 1)}
 
 
+CHUNK_BYTES = 350 * 1024 * 1024
+HISTORY_STARTS = ("new", "bnew", "snew")
+
+
 def tlc_trace(module, cfg, trace, name, timeout=1800, env=None):
+    """Validates a trace; very large traces are split at history boundaries into chunks that are
+    validated by separate TLC runs (ndJsonDeserialize holds a whole file in memory)."""
+    if os.path.getsize(trace) <= CHUNK_BYTES:
+        return _tlc_trace_one(module, cfg, trace, name, timeout, env)
+    total, bad_all, dt_all = 0, [], 0.0
+    part, size, k, stateful = [], 0, 0, None
+    def flush():
+        nonlocal part, size, k, total, bad_all, dt_all
+        if not part:
+            return
+        cp = "%s.chunk%d" % (trace, k)
+        with open(cp, "w") as f:
+            f.writelines(part)
+        n, bad, dt = _tlc_trace_one(module, cfg, cp, "%s_chunk" % name, timeout, env)
+        os.remove(cp)
+        bad_all += [(i + total, c) for i, c in bad]
+        total += n
+        dt_all += dt
+        part, size = [], 0
+        k += 1
+    with open(trace) as f:
+        for line in f:
+            if stateful is None:
+                stateful = any(('"ev":"%s"' % h) in line or ('"ev": "%s"' % h) in line for h in HISTORY_STARTS)
+            boundary = (not stateful) or any(('"ev":"%s"' % h) in line for h in HISTORY_STARTS)
+            if size > CHUNK_BYTES and boundary:
+                flush()
+            part.append(line)
+            size += len(line)
+    flush()
+    return total, bad_all, round(dt_all, 1)
+
+
+def _tlc_trace_one(module, cfg, trace, name, timeout=1800, env=None):
     """Trace validation: returns (n_events, [(bad index, code)], seconds).  The trace spec prints
     <<"TRACE-RESULT", n, <<bad...>>>> when it has consumed the whole trace."""
     meta = os.path.join(BUILD, "tlc", name)
